@@ -1,11 +1,14 @@
 (* C14 — A NodeClaim launches one instance and its lifecycle moves forward.
    Property theorems only; each is closed by [exact] of a lemma from C14/Proofs*.v.
+
    Histories are lists of [op]: reconciles under an arbitrary fault plan (an outcome for each
-   individual API write and provider call), informer refreshes, clock ticks, API deletes,
-   process restarts and node events in any order.  [trace k ops] is what the model of the
-   lifecycle controller does on such a history, as frames (stored object before, calls made,
-   stored object after, node after). *)
-From KV Require Import C14.Model C14.Spec C14.Proofs C14.Proofs2.
+   individual API write and provider call), informer refreshes ([Sync]: the cached object the
+   controller reads is a past snapshot of the stored one), clock ticks, API deletes, process
+   restarts and node events in any order.  [trace k ops] is what the model of
+   lifecycle.Controller.Reconcile does on such a history, as frames (stored object before, calls
+   made with their outcome, stored object after, node after).  The model is tied to /repo by the
+   correspondence check of C14/Check.v on every run. *)
+From KV Require Import C14.Model C14.Spec C14.Proofs C14.Proofs2 C14.Proofs3.
 
 (* The boolean oracle that the check evaluates on the implementation's observed frames decides
    the property as stated in C14/Spec.v. *)
@@ -13,9 +16,44 @@ Theorem oracle_decides : forall k guard fs, holds_b k guard fs = true <-> holds 
 Proof. exact holds_b_iff. Qed.
 Print Assumptions oracle_decides.
 
+(* At most one successful provider Create per NodeClaim, for every history without a process
+   restart in which the launch cache entry is within its TTL whenever the NodeClaim is
+   reconciled: every fault plan (failed status writes included), every staleness of the cached
+   object, every order of environment events. *)
+Theorem create_at_most_once : forall k ops,
+  no_restart ops -> no_expiry k ops = true -> (total_creates (trace k ops) <= 1)%nat.
+Proof. exact create_at_most_once_l. Qed.
+Print Assumptions create_at_most_once.
+
+(* Both hypotheses are necessary: a lost status write followed by a restart, or by a reconcile
+   gap longer than the TTL, launches a second instance (the gap of exactly the TTL does not). *)
+Theorem create_at_most_once_needs_no_restart :
+  total_creates (trace k0 [Rec status_lost; Restart; Rec okp]) = 2%nat.
+Proof. exact restart_duplicates. Qed.
+Print Assumptions create_at_most_once_needs_no_restart.
+
+Theorem create_at_most_once_needs_no_expiry :
+  total_creates (trace k0 [Rec status_lost; Tick 3601; Rec okp]) = 2%nat /\
+  no_expiry k0 [Rec status_lost; Tick 3601; Rec okp] = false /\
+  total_creates (trace k0 [Rec status_lost; Tick 3600; Rec okp]) = 1%nat.
+Proof. exact expiry_duplicates. Qed.
+Print Assumptions create_at_most_once_needs_no_expiry.
+
+(* The explicit inequality: with LaunchTimeout <= registrationTimeout < cache TTL, every requeue
+   delay that Liveness returns is shorter than the TTL, so a work queue that honours it brings
+   the next reconcile before the entry stored or refreshed by this reconcile expires.
+   (The check evaluates [timing_ok] on the three durations read from the real controller.) *)
+Theorem liveness_requeues_before_cache_expiry : forall k,
+  0 <= k_lt k -> k_lt k <= k_rt k -> k_rt k < k_ttl k ->
+  forall pl r, 0 <= r_now r -> c_rltt (r_im r) <= r_now r ->
+  exists x, r_ress (liveness k pl r) = r_ress r ++ x /\
+            Forall (fun q => match q with QAfter d => d < k_ttl k | _ => True end) x.
+Proof. exact liveness_delay_lt_ttl. Qed.
+Print Assumptions liveness_requeues_before_cache_expiry.
+
 (* The provider is never asked to create an instance unless the stored NodeClaim carries the
    termination finalizer at that moment: for every history, every fault plan, stale reads,
-   restarts. *)
+   restarts, expiry. *)
 Theorem create_after_finalizer : forall k ops,
   Forall (fun f => create_guarded (has_fin (fr_pre f)) (fr_effs f)) (trace k ops).
 Proof. exact create_after_finalizer_l. Qed.
@@ -27,3 +65,70 @@ Theorem capacity_error_deletes : forall k ops,
   Forall (fun f => cap_deletes (fr_post f) (fr_effs f)) (trace k ops).
 Proof. exact capacity_error_deletes_l. Qed.
 Print Assumptions capacity_error_deletes.
+
+(* Conditions, inside one reconcile, for every fault plan and every state (partial: proved for the
+   object a reconcile computes and writes; that the stored object stays ordered across merges of
+   writes computed from stale reads is checked by the oracle on every implementation history but
+   not proved). *)
+
+(* Launched turns True only with an instance: created by this reconcile or remembered by the launch
+   cache; the provider id is set together with it. *)
+Theorem launched_justified_partial : forall k pl r,
+  c_l (r_im r) <> LTrue -> c_l (r_im (launch k pl r)) = LTrue ->
+  (cache_hit k r <> None \/ launch_ex k pl r = [ECreate POk]) /\ c_pid (r_im (launch k pl r)) <> None.
+Proof. exact launch_justified. Qed.
+Print Assumptions launched_justified_partial.
+
+(* Registered turns True only when exactly one node carries the claim's provider id and that node
+   is synced (finalizer, owner, labels) with the unregistered taint removed and the registered
+   label set. *)
+Theorem registered_justified_partial : forall k pl r,
+  c_r (r_im r) <> RTrue -> c_r (r_im (registration k pl r)) = RTrue ->
+  node_registered_ok (r_nd (registration k pl r)) = true /\ c_pid (r_im r) <> None.
+Proof. exact registration_justified. Qed.
+Print Assumptions registered_justified_partial.
+
+(* Initialized turns True only when Registered is True and the node is Ready, without the startup
+   taint, without ephemeral taints (the unregistered taint included), with the requested extended
+   resource reported, and labelled initialized. *)
+Theorem initialized_justified_partial : forall k pl r,
+  c_i (r_im r) <> ITrue -> c_i (r_im (initialization k pl r)) = ITrue ->
+  node_initialized_ok k (r_nd (initialization k pl r)) = true /\ c_r (r_im r) = RTrue.
+Proof. exact initialization_justified. Qed.
+Print Assumptions initialized_justified_partial.
+
+(* The object a reconcile writes has Registered only with Launched and Initialized only with
+   Registered, given that the object it read has (and carries a provider id only when Launched). *)
+Theorem conditions_ordered_partial : forall k pl r,
+  ordered (r_im r) -> linked (r_im r) -> ordered (r_im (subs k pl r)).
+Proof. exact subs_ordered. Qed.
+Print Assumptions conditions_ordered_partial.
+
+(* Non-vacuity. *)
+
+(* the happy path: one create under the finalizer patched in the same reconcile, then registration
+   and initialization once the node shows up *)
+Example happy_path :
+  let ops := [Rec okp; Sync; NodeAppear true; Rec okp; Sync; NReady true; Rec okp; Sync] in
+  total_creates (trace k0 ops) = 1%nat /\ no_restart ops /\ no_expiry k0 ops = true /\
+  option_map (fun c => (c_fin c, c_l c, c_r c, c_i c)) (pc (final k0 ops)) = Some (true, LTrue, RTrue, ITrue) /\
+  fr_effs (hd (mkFrame Sync None [] QNone None None) (trace k0 ops)) = [EFin WOk; ECreate POk; EPatch WOk; EStatus WOk].
+Proof. vm_compute. repeat split; try reflexivity. repeat constructor. Qed.
+
+(* a lost status write is bridged by the cache: the retry (on a stale read) does not create again *)
+Example status_write_lost_then_retried :
+  let ops := [Rec status_lost; Rec okp; Sync; Rec okp] in
+  total_creates (trace k0 ops) = 1%nat /\ no_expiry k0 ops = true /\
+  option_map c_l (pc (final k0 ops)) = Some LTrue.
+Proof. vm_compute. repeat split; reflexivity. Qed.
+
+(* a capacity error deletes the claim *)
+Example capacity_error :
+  let pl := mkPlan WOk PInsufficient WOk false HReady WOk WOk false WOk WOk WOk WOk WOk WOk WOk false WOk WOk in
+  map fr_effs (trace k0 [Rec pl]) = [[EFin WOk; ECreate PInsufficient; EDelLaunch WOk; EPatch WOk; EStatus WOk]] /\
+  option_map c_del (pc (final k0 [Rec pl])) = Some true.
+Proof. vm_compute. split; reflexivity. Qed.
+
+(* the real durations satisfy the inequality *)
+Example real_timing : timing_ok k0 = true.
+Proof. reflexivity. Qed.
